@@ -669,7 +669,7 @@ func (c09) Gen(r *rand.Rand, tier string, i int) any {
 		n := []int{2, 3, 4, 8, 16, 32, 64}[r.Intn(7)]
 		return c09In{Kind: "conc", Anon: r.Intn(2) == 0, Authz: []string{"none", "accept"}[r.Intn(2)], N: n, ConcSeed: r.Int63()}
 	}
-	if i%5 == 4 {
+	if i%8 == 7 {
 		m := c09In{Kind: "multi", Anon: r.Intn(2) == 0, Authz: c09Pick(r, "authz")}
 		nreq := 2 + r.Intn(2)
 		for j := 0; j < nreq; j++ {
